@@ -822,9 +822,24 @@ COMBINATORS = {
 }
 
 
+AWAIT_PLUMBING = ('IntoFuture::into_future', 'Pin::new_unchecked', 'Pin::<Ptr>::new_unchecked', 'future::get_context', 'Try::branch', 'Fn::call', 'FnMut::call_mut', 'FnOnce::call_once')
+
+
+def _call_sites(bodies):
+    """{(callee name, line)} over the non-cleanup call terminators of the given bodies"""
+    out = set()
+    for b in bodies:
+        for blk in b.blocks:
+            t = blk.term
+            if t.kind == 'call' and not blk.cleanup and t.func is not None and t.func.kind == 'const':
+                out.add((strip_generics(t.func.const.get('rfn') or t.func.const.get('fn') or '?'), t.line))
+    return out
+
+
 def normalise(prog, crates, keep=()):
     """replace every body of the given crates by its inlined view and drop absorbed helpers; returns the Normaliser"""
     nz = Normaliser(prog, crates, keep)
+    before = _call_sites([b for p_, b in prog.bodies.items() if nz._crate_of(p_) in nz.crates])
     new = {}
     for p, b in list(prog.bodies.items()):
         if nz._crate_of(p) in nz.crates:
@@ -870,6 +885,15 @@ def normalise(prog, crates, keep=()):
     prog._cg = None
     prog._an = {}
     prog.absorbed = absorbed + sorted(inlined_closures)
+    # self-check of the normal form: no call site of the original program may vanish, apart from the calls the rewriting
+    # itself dissolves (calls of inlined helpers / coroutines / closures, the plumbing of an inlined await, desugared combinators)
+    gone = set(nz.inlinable) | {b_.path for (b_, c_, a_) in nz.awaitable.values()} | {c_.path for (b_, c_, a_) in nz.awaitable.values()} | set(inlined_closures)
+    gone_names = {strip_generics(g) for g in gone}
+    after = _call_sites(new.values())
+    lost = sorted((n_, l_) for (n_, l_) in before - after
+                  if n_ not in gone_names and not n_.endswith(AWAIT_PLUMBING) and n_ not in COMBINATORS and not any(n_ == strip_generics(k) for k in COMBINATORS)
+                  and not any(x in n_ for x in ('IntoFuture', 'new_unchecked', 'get_context', 'Try>::branch', 'Try::branch')))
+    prog.normalise_lost = lost
     for c in prog.crates.values():
         c.bodies = [new[b.path] for b in c.bodies if b.path in new]
     return nz
